@@ -44,12 +44,16 @@ func init() {
 	rt.Register("H_C11_arr", H_C11_arr)
 	rt.Register("H_C11_str", H_C11_str)
 	rt.Register("H_C11_idx", H_C11_idx)
+	rt.Register("H_C02_infix", H_C02_infix)
+	rt.Register("H_C02_mixed", H_C02_mixed)
 	rt.Register("H_C10_bin", H_C10_bin)
 	rt.Register("H_C10_neg", H_C10_neg)
 	rt.Register("H_C10_pow", H_C10_pow)
 	rt.Register("H_C10_pow_pool", H_C10_pow_pool)
 }
 
+func H_C02_infix() { parser.VH_C02_infix(rt.Param(0), rt.Param(1), rt.Param(2)) }
+func H_C02_mixed() { parser.VH_C02_mixed(rt.Param(0)) }
 func H_C10_bin() { props.VH_C10_bin(rt.Param(0)) }
 func H_C10_neg() { props.VH_C10_neg() }
 func H_C10_pow() { props.VH_C10_pow(rt.Param(0)) }
